@@ -55,10 +55,17 @@ def nostd_batch(ctx, tier):
     mods = []
     cases = ss.generate(ctx, "MC_Struct_c01q" if tier == "quick" else "MC_Struct_c01t")
     obs, fail, _ = ss.observe(ctx, cases, "nostd")
+    smods = []
     for i, c in enumerate(cases):
         if i in fail or c["vars"] or c["upd"] or c["ret"]:
             continue
-        mods.append((f"s{i}", StructCase(i, c).items_only()))
+        smods.append((f"s{i}", StructCase(i, c).items_only()))
+    if len(smods) > 8000:
+        # one library crate cannot be sharded: a seeded sample keeps rustc within memory in the thorough tier
+        import random
+        smods = random.Random(1).sample(smods, 8000)
+        ctx.notes.append("no_std batch: seeded sample of 8000 struct-stream cases")
+    mods += smods
     r = core.tlc("MC_C03", "MC_C03_q1", workers=8)
     ctx.add_tlc(r)
     for i, c in enumerate(r.cases[: (300 if tier == "quick" else 100000)]):
